@@ -1,5 +1,5 @@
 import Model
-import Generated
+import Generated.Facts
 namespace Facts10
 /-- The empty-page threshold in the source is the model's. -/
 theorem threshold_match : Generated.emptyThreshold = Coll.threshold := by decide
